@@ -83,11 +83,10 @@ Proof. intros p sup mem ph. unfold no_override. cbn. destruct (sup _) as [[[r cs
 
 Lemma memo_override_spec fi st inS : ovr_spec inS st (gen_memo_pattern st inS (with_inst fi)).
 Proof.
-  intros p sup mem ph. unfold gen_memo_pattern, bind, get_mem. cbn [r_mem].
+  (* shape-independent: whichever way the source arranges the load / build / save decisions *)
+  intros p sup mem ph. unfold gen_memo_pattern, bind, get_mem. cbn [r_mem]. cbv zeta.
   destruct (st && tmem (TPat p) mem); [reflexivity|].
-  destruct (inS p).
-  - destruct (sup (mkrst mem ph)) as [[[r cs] [m' ph']]|]; [|reflexivity]. cbn. rewrite ?app_nil_r. reflexivity.
-  - destruct (sup (mkrst mem ph)) as [[[r cs] s']|]; reflexivity.
+  destruct (inS p); destruct (sup (mkrst mem ph)) as [[[r cs] [m' ph']]|]; cbn; rewrite ?app_nil_r; reflexivity.
 Qed.
 
 Lemma stack_override b ls fi : o_ops (stack_obj b ls) = with_inst fi ->
